@@ -107,6 +107,8 @@ type impl struct {
 	dev    *spine.DeviceLocal
 	remote api.DeviceRemoteInterface
 	inCtr  uint64
+	// hash of the request the previous operation issued and got a counter for, else -1
+	lastReq int64
 }
 
 const discoveryHash = 99
@@ -114,7 +116,7 @@ const devSki = "ski-c13"
 
 func newImpl() hx.Impl {
 	w := &writer{}
-	return &impl{w: w, s: spine.NewSender(w)}
+	return &impl{w: w, s: spine.NewSender(w), lastReq: -1}
 }
 
 func (m *impl) Close() {
@@ -235,8 +237,73 @@ func (m *impl) other(k int64) {
 }
 
 func (m *impl) Exec(op hx.Zs) []hx.Zs {
+	out := m.exec1(op)
+	// a request that has just returned a counter is unanswered now (sent or withheld): only then may the
+	// next operation overlap a repetition of it with other calls (operation 7)
+	m.lastReq = -1
+	if op[0] == 0 && op[1] != discoveryHash {
+		for _, o := range out {
+			if len(o) == 2 && o[0] == 1 {
+				m.lastReq = op[1]
+			}
+		}
+	}
+	return out
+}
+
+func (m *impl) request(h int64) *model.MsgCounterType {
+	dst, c := h/nCmd, h%nCmd
+	var ctr *model.MsgCounterType
+	switch c {
+	case 4:
+		ctr, _ = m.s.Subscribe(localAddr, featAddr(dst), model.FeatureTypeTypeMeasurement)
+	case 5:
+		ctr, _ = m.s.Bind(localAddr, featAddr(dst), model.FeatureTypeTypeMeasurement)
+	case 6:
+		ctr, _ = m.s.Unsubscribe(localAddr, featAddr(dst))
+	case 7:
+		ctr, _ = m.s.Unbind(localAddr, featAddr(dst))
+	default:
+		ctr, _ = m.s.Request(model.CmdClassifierTypeRead, localAddr, featAddr(dst), false, []model.CmdType{readCmd(c)})
+	}
+	return ctr
+}
+
+func (m *impl) exec1(op hx.Zs) []hx.Zs {
 	var ret []hx.Zs
 	switch op[0] {
+	case 7:
+		// a repetition of the request that is unanswered, overlapped by other calls: it must be withheld
+		// (no counter, no datagram) wherever it falls among them.  Without the guarantee that it is
+		// unanswered the two parts run one after the other, which is the model's composition literally.
+		h, kinds := op[1], op[2:]
+		if m.lastReq != h || h == discoveryHash {
+			r1 := m.exec1(hx.Zs{0, h})
+			return append(r1, m.exec1(append(hx.Zs{5}, kinds...))...)
+		}
+		start := make(chan struct{})
+		var wg sync.WaitGroup
+		var got *model.MsgCounterType
+		wg.Add(1)
+		go func() {
+			defer wg.Done()
+			<-start
+			got = m.request(h)
+		}()
+		for _, k := range kinds {
+			wg.Add(1)
+			go func(k int64) {
+				defer wg.Done()
+				<-start
+				m.other(k)
+			}(k)
+		}
+		close(start)
+		wg.Wait()
+		if got != nil {
+			ret = append(ret, hx.Zs{1, int64(*got)})
+		}
+		return append(ret, m.pairBurst(kinds)...)
 	case 0:
 		h := op[1]
 		if h == discoveryHash {
@@ -258,20 +325,7 @@ func (m *impl) Exec(op hx.Zs) []hx.Zs {
 			}
 			return append(m.written(), ret...)
 		}
-		dst, c := h/nCmd, h%nCmd
-		var ctr *model.MsgCounterType
-		switch c {
-		case 4:
-			ctr, _ = m.s.Subscribe(localAddr, featAddr(dst), model.FeatureTypeTypeMeasurement)
-		case 5:
-			ctr, _ = m.s.Bind(localAddr, featAddr(dst), model.FeatureTypeTypeMeasurement)
-		case 6:
-			ctr, _ = m.s.Unsubscribe(localAddr, featAddr(dst))
-		case 7:
-			ctr, _ = m.s.Unbind(localAddr, featAddr(dst))
-		default:
-			ctr, _ = m.s.Request(model.CmdClassifierTypeRead, localAddr, featAddr(dst), false, []model.CmdType{readCmd(c)})
-		}
+		ctr := m.request(h)
 		if ctr != nil {
 			ret = append(ret, hx.Zs{1, int64(*ctr)})
 		}
@@ -334,29 +388,7 @@ func (m *impl) Exec(op hx.Zs) []hx.Zs {
 		}
 		close(start)
 		wg.Wait()
-		ws := m.written()
-		sort.SliceStable(ws, func(i, j int) bool { return len(ws[i]) > 1 && len(ws[j]) > 1 && ws[i][1] < ws[j][1] })
-		want := map[int64]int{}
-		for _, k := range kinds {
-			want[k]++
-		}
-		same := len(ws) == len(kinds)
-		for _, w := range ws {
-			if len(w) == 4 {
-				want[w[2]]--
-			}
-		}
-		for _, v := range want {
-			if v != 0 {
-				same = false
-			}
-		}
-		if same {
-			for i := range ws {
-				ws[i][2] = kinds[i]
-			}
-		}
-		return ws
+		return m.pairBurst(kinds)
 	case 4:
 		d, err := m.s.DatagramForMsgCounter(model.MsgCounterType(op[1]))
 		if err != nil {
@@ -366,6 +398,34 @@ func (m *impl) Exec(op hx.Zs) []hx.Zs {
 		}
 	}
 	return append(m.written(), ret...)
+}
+
+// the datagrams written by overlapping calls, sorted by counter and paired with the kinds in the
+// order given when the multiset of kinds is the expected one
+func (m *impl) pairBurst(kinds []int64) []hx.Zs {
+	ws := m.written()
+	sort.SliceStable(ws, func(i, j int) bool { return len(ws[i]) > 1 && len(ws[j]) > 1 && ws[i][1] < ws[j][1] })
+	want := map[int64]int{}
+	for _, k := range kinds {
+		want[k]++
+	}
+	same := len(ws) == len(kinds)
+	for _, w := range ws {
+		if len(w) == 4 {
+			want[w[2]]--
+		}
+	}
+	for _, v := range want {
+		if v != 0 {
+			same = false
+		}
+	}
+	if same {
+		for i := range ws {
+			ws[i][2] = kinds[i]
+		}
+	}
+	return ws
 }
 
 // ---- generator
@@ -455,6 +515,19 @@ func gen(r *hx.Rng, tier string, i int) []hx.Zs {
 		}
 		h = append(h, op)
 	}
+	// a repetition of a request that is unanswered, overlapped by other calls: the request first (so that
+	// it is unanswered for certain), then the overlapped repetition, which takes no counter
+	dupBurst := func() {
+		hash := int64(r.Intn(4))*nCmd + int64(r.Intn(nCmd))
+		request(hash)
+		n := r.Range(1, 12)
+		op := hx.Zs{7, hash}
+		for j := 0; j < n; j++ {
+			take()
+			op = append(op, []int64{2, 3, 4}[r.Intn(3)])
+		}
+		h = append(h, op)
+	}
 	nDst := int64(4)
 	if i%6 == 5 { // device mode: responses arrive as datagrams through DeviceRemote.HandleSpineMesssage
 		request(discoveryHash)
@@ -482,7 +555,9 @@ func gen(r *hx.Rng, tier string, i int) []hx.Zs {
 	if i%5 == 4 { // concurrent use: bursts of overlapping calls between sequential operations
 		n := r.Range(6, 40)
 		for len(h) < n {
-			switch r.Pick(50, 15, 10, 10, 10, 5) {
+			switch r.Pick(50, 15, 10, 10, 10, 5, 25) {
+			case 6:
+				dupBurst()
 			case 0:
 				burst()
 			case 1:
@@ -581,7 +656,7 @@ func main() {
 		Property: "C13",
 		Clauses: map[int64]string{1: "counter-duplicated", 2: "counter-not-increasing", 3: "withheld-without-unanswered-identical-request",
 			4: "wrong-datagram-or-return", 5: "lru-get-refreshes-recency", 6: "retrieved-wrong-datagram", 98: "unparseable-observation", 99: "unparseable-operation"},
-		OpNames: map[int64]string{0: "request", 1: "response", 2: "notify", 3: "reply/result/write", 4: "lookup", 5: "burst (overlapping calls)", 6: "notify probed while written"},
+		OpNames: map[int64]string{0: "request", 1: "response", 2: "notify", 3: "reply/result/write", 4: "lookup", 5: "burst (overlapping calls)", 7: "repeated request overlapped by other calls", 6: "notify probed while written"},
 		NewImpl: newImpl,
 		Gen:     gen,
 		Count:   map[string]int{"quick": 400, "thorough": 20000},
